@@ -288,6 +288,37 @@ func cartGen(c *ctx) {
 			}
 		}
 	}
+	// Part A2: every ORDER of the RAM control writes (enable / disable / bank / mode) of length <= 4, then a RAM
+	// write, a read-back in every bank and the dump — a bank or mode selected while RAM is disabled must be in
+	// force once it is enabled
+	ctl := [][2]int{{0x0000, 0x0a}, {0x0000, 0x00}, {0x4000, 0x01}, {0x4000, 0x03}, {0x6000, 0x01}, {0x6000, 0x00}}
+	for _, t := range []int{0x03, 0x13, 0x1b} {
+		var rec func(seq []int)
+		rec = func(seq []int) {
+			if len(seq) > 0 {
+				r.reset(t, 1, 3, -1)
+				for _, k := range seq {
+					r.w(ctl[k][0], ctl[k][1])
+				}
+				r.w(0xa123, 0x5a+len(seq))
+				r.do("r a123")
+				r.w(0x0000, 0x0a)
+				for b := 0; b < 4; b++ {
+					r.w(0x4000, b)
+					r.do("r a123")
+				}
+				r.do("dump")
+				r.classify("ctl-order", r.lastOut)
+			}
+			if len(seq) == 4 || (!c.thorough() && len(seq) == 3) {
+				return
+			}
+			for k := range ctl {
+				rec(append(append([]int{}, seq...), k))
+			}
+		}
+		rec(nil)
+	}
 	// Part B: malformed images.
 	for _, l := range []int{0, 1, 0x100, 0x147, 0x148, 0x149, 0x14a, 0x14b, 0x3fff, 0x4000, 0x4001, 0x7fff, 0x8000, 0x8001,
 		0xbfff, 0xc000, 0x10000, 0x10001} {
